@@ -26,3 +26,11 @@ func TestVerifC03Decorator(t *testing.T) {
 func TestVerifC10Decorator(t *testing.T) {
 	vs.Run(t, "C10", func(c *vs.Case) error { return vw.PropC10(c, decoratorFactory, "decorator") })
 }
+
+func TestVerifC12FixedExhaustive(t *testing.T) {
+	vs.RunExhaustive(t, "C12", 2_000_000, func(c *vs.Case) error { return vw.PropC12(c, decoratorFactory, "decorator", true) })
+}
+
+func TestVerifC12Random(t *testing.T) {
+	vs.Run(t, "C12", func(c *vs.Case) error { return vw.PropC12(c, decoratorFactory, "decorator", false) })
+}
